@@ -23,8 +23,9 @@
    Pass C: additionally the logged state must be the one the model computes (Match(Post...)) and the guards must hold. *)
 EXTENDS Pipeline, TraceLib
 
-VARIABLES l, phase, declared, blindA, blindB, blindC, bclients, revOf, revOK
-tghost == <<phase, declared, blindA, blindB, blindC, bclients, revOf, revOK>>
+VARIABLES l, phase, declared, blindA, blindB, blindC, bclients, revOf, revOK,
+          cur      \* the last free-running line (Storm / TimerAbandon): judged as a whole, see the end of the module
+tghost == <<phase, declared, blindA, blindB, blindC, bclients, revOf, revOK, cur>>
 tvars == <<vars, l, tghost>>
 
 TEnvI(n, dflt) == IF n \in DOMAIN IOEnv THEN atoi(IOEnv[n]) ELSE dflt
@@ -64,7 +65,7 @@ Match(r) ==
   /\ r.wake = T.wake /\ r.os = Tk(T.os) /\ r.ct.on = T.cton /\ r.ct.tok = Tk(T.ctok) /\ r.resp = Rows(T.resp)
 
 TInit == Init /\ l = 1 /\ phase = 0 /\ declared = {} /\ blindA = {} /\ blindB = {} /\ blindC = {} /\ bclients = {}
-         /\ revOf = [x \in {} |-> ""] /\ revOK = TRUE
+         /\ revOf = [x \in {} |-> ""] /\ revOK = TRUE /\ cur = [a |-> "none"]
 
 Reset == /\ Ev("Reset") /\ LoggedRest
          /\ doc' = [d \in Docs |-> [seq |-> T.docs[d].seq, recent |-> LSet(T.docs[d].recent), unused |-> LSet(T.docs[d].unused), ver |-> 0]]
@@ -72,14 +73,14 @@ Reset == /\ Ev("Reset") /\ LoggedRest
          /\ wr' = [w \in Writers |-> IdleW] /\ feed' = {} /\ dup' = 1000000
          /\ got' = [c \in {"os", "ct"} |-> {}] /\ commits' = {} /\ abandoned' = {} /\ ordOK' = TRUE /\ dead' = {}
          /\ hist' = <<>> /\ phase' = 0 /\ declared' = {} /\ blindA' = {} /\ blindB' = {} /\ blindC' = {}
-         /\ bclients' = LSet(T.cfg.clients) /\ revOf' = [x \in {} |-> ""] /\ revOK' = TRUE
+         /\ bclients' = LSet(T.cfg.clients) /\ revOf' = [x \in {} |-> ""] /\ revOK' = TRUE /\ cur' = [a |-> "none"]
 CReset == Reset /\ InitImpl'
 
 FeedEv(k) == {e \in feed : e.k = k /\ e.d = T.d /\ e.seq = T.seq}
 (* F-c blind spot: numbers the as-coded DocChanged does not look at although the mutation carries them *)
 CutBlind(e) == IF RecentCutAtUnused /\ e.k = "mut" /\ e.unused # {}
                THEN {s \in e.recent : s >= SetMin(e.unused) /\ s < e.seq /\ s \notin e.unused} ELSE {}
-KeepT == UNCHANGED <<hist, phase, bclients>>
+KeepT == UNCHANGED <<hist, phase, bclients, cur>>
 NoBlind == UNCHANGED <<blindA, blindB, blindC>>
 NoRev == UNCHANGED <<revOf, revOK>>
 (* F-b blind spot: a response made while the very first sequence of a new database is the oldest skipped one stamps nothing *)
@@ -118,8 +119,10 @@ PIter    == /\ Ev("Iter") /\ LoggedBut /\ LoggedCt(IF T.stall THEN ct ELSE PostI
             /\ blindA' = blindA
 PDisconnect == Ev("Disconnect") /\ Logged /\ UNCHANGED env /\ UNCHANGED ghost /\ KeepT /\ NoBlind /\ NoRev /\ UNCHANGED declared
 PQuiesce == /\ Ev("Quiesce") /\ Logged /\ UNCHANGED env /\ UNCHANGED ghost /\ NoBlind /\ NoRev /\ UNCHANGED declared
-            /\ phase' = T.phase /\ UNCHANGED <<hist, bclients>>
-PNext == Reset \/ PReserve \/ PCas \/ PFail \/ PDie \/ PDeliver \/ PCoalesce \/ PTick \/ PAbandon \/ PRequest \/ PConnect
+            /\ phase' = T.phase /\ UNCHANGED <<hist, bclients, cur>>
+PFree == /\ l <= TraceLen /\ T.a \in {"Storm", "TimerAbandon"} /\ l' = l + 1 /\ cur' = T
+         /\ UNCHANGED <<vars, phase, declared, blindA, blindB, blindC, bclients, revOf, revOK>>
+PNext == PFree \/ Reset \/ PReserve \/ PCas \/ PFail \/ PDie \/ PDeliver \/ PCoalesce \/ PTick \/ PAbandon \/ PRequest \/ PConnect
          \/ PIter \/ PDisconnect \/ PQuiesce
 PSpec == TInit /\ [][PNext]_tvars
 
@@ -137,7 +140,7 @@ CConnect == PConnect /\ ~ct.on /\ Match(PostConnect)
 CIter    == PIter /\ ct.on /\ (IF T.stall THEN ~wake /\ Match([CurI EXCEPT !.resp = <<>>]) ELSE wake /\ Match(PostIter))
 CDisconnect == PDisconnect /\ ct.on /\ Match(PostDisconnect)
 CQuiesce == PQuiesce /\ Match(CurI)
-CNext == CReset \/ CReserve \/ CCas \/ CFail \/ CDie \/ CDeliver \/ CCoalesce \/ CTick \/ CAbandon \/ CRequest \/ CConnect
+CNext == PFree \/ CReset \/ CReserve \/ CCas \/ CFail \/ CDie \/ CDeliver \/ CCoalesce \/ CTick \/ CAbandon \/ CRequest \/ CConnect
          \/ CIter \/ CDisconnect \/ CQuiesce
 CSpec == TInit /\ [][CNext]_tvars
 
@@ -150,7 +153,9 @@ QuietAccountedL == (Quiet /\ pend = {}) => (skipped \subseteq (dead \cup blindC)
 (* end of a behaviour: everything delivered, the pending sweep ran, clients asked once more (phase 1); then the abandonment
    sweep and one more request / iteration per client (phase 2) - a late arrival below a sequence that is still skipped is only
    re-sent once the low sequence moves, so NoLostChange is judged at phase 2 *)
-NoLostChangeQ == phase >= 2 => \A c \in bclients, d \in Docs : Seen(c, d) \/ Lost(Final(d)) \/ Final(d) \in Blind(c)
+NoLostChangeFor(c) == (phase >= 2 /\ c \in bclients) => \A d \in Docs : Seen(c, d) \/ Lost(Final(d)) \/ Final(d) \in Blind(c)
+NoLostChangeQ == NoLostChangeFor("os")        \* C08: the resume loop
+ContDeliversQ == NoLostChangeFor("ct")        \* C01: the continuous feed, without being re-issued
 FeedAnnouncesFinalQ == phase >= 1 => \A d \in Docs : Final(d) = 0 \/ chan[d] = Final(d) \/ Lost(Final(d))
 NoStallQ == /\ phase = 1 => (pend = {} /\ skipped \subseteq (dead \cup blindC) /\ next > Top)
             /\ phase = 2 => (pend = {} /\ skipped = {} /\ Stable >= Top)
@@ -163,11 +168,65 @@ DevFb == /\ \A c \in bclients, d \in Docs : Final(d) \in blindB => (Seen(c, d) \
 DevFc == ((Quiet /\ pend = {}) \/ phase = 1) => (skipped \cap blindC) \subseteq dead
 
 Viol(name, holds) == holds \/ PrintT(<<"VIOL", name, l>>)
-ReportP == /\ Viol("ResumeSafe", ResumeSafeL) /\ Viol("FeedSound", FeedSound) /\ Viol("RowsAreCommitted", RowsAreCommitted)
+ReportPReplay == /\ Viol("ResumeSafe", ResumeSafeL) /\ Viol("FeedSound", FeedSound) /\ Viol("RowsAreCommitted", RowsAreCommitted)
            /\ Viol("OrderedPerResponse", OrderedPerResponse) /\ Viol("LedgerAccounted", LedgerAccounted)
-           /\ Viol("QuietAccounted", QuietAccountedL) /\ Viol("NoLostChange", NoLostChangeQ)
+           /\ Viol("QuietAccounted", QuietAccountedL) /\ Viol("NoLostChange", NoLostChangeQ) /\ Viol("ContDelivers", ContDeliversQ)
            /\ Viol("FeedAnnouncesFinal", FeedAnnouncesFinalQ) /\ Viol("NoStall", NoStallQ)
            /\ Viol("DevFa", DevFa) /\ Viol("DevFb", DevFb) /\ Viol("DevFc", DevFc)
+
+-----------------------------------------------------------------------------
+(* Free-running runs (TestVerif_Pipeline_Storm / _Abandon): one line per run, judged at quiescence.  Real sequence numbers.
+   Storm line: c0, c1 (counter before / after), docs [{id,seq,rev,recent,unused,chan}] read back from the bucket (chan = the
+   all-documents channel cache's entry), attempts [{id,seq,unused,out,rev}] = per tagged write the numbers of its last attempt as
+   seen at the storage boundary and what the caller was told (ack | timeout_applied | conflict | fail | die), notices, dead,
+   delivered [{id,seq,unused,recent}] = document mutations the feed dispatcher handed to the cache, cache1 (at quiescence) and
+   cache2 (after the abandonment sweep) {next,pend,skip,stable}, top, os {resps, last}, ct {rows}. *)
+IsStorm == cur.a = "Storm"
+SAtt == LSet(cur.attempts)
+SHeld(a) == (IF a.seq > 0 THEN {a.seq} ELSE {}) \cup LSet(a.unused)
+SCommitted == {a \in SAtt : a.out \in {"ack", "timeout_applied"}}
+SUsed == {a.seq : a \in SCommitted}
+SCarried == UNION {LSet(a.unused) : a \in SCommitted}
+SMustRelease == UNION {SHeld(a) : a \in {x \in SAtt : x.out \in {"conflict", "fail"}}}
+SDead == LSet(cur.dead)
+SNot == LSet(cur.notices)
+SAll == (cur.c0 + 1)..cur.c1
+SDocs == LSet(cur.docs)
+SDel == LSet(cur.delivered)
+SBlindC == IF RecentCutAtUnused
+           THEN UNION {{s \in LSet(e.recent) : Len(e.unused) > 0 /\ s >= SetMin(LSet(e.unused)) /\ s < e.seq /\ s \notin LSet(e.unused)} : e \in SDel}
+           ELSE {}
+SRowsOs == UNION {LSet(cur.os.resps[i]) : i \in 1..Len(cur.os.resps)}
+SRowsCt == LSet(cur.ct.rows)
+SHas(R, d) == \E r \in R : r.id = d.id /\ r.seq = d.seq /\ r.rev = d.rev
+(* C07: every number taken from the counter is used by a committed write, carried in its unused_sequences, published as unused,
+   or held by a write that timed out without effect; what a failed write held has been published; nothing is both *)
+StormLedger == IsStorm => /\ SAll = (SUsed \cup SCarried \cup SNot \cup SDead) \cap SAll
+                          /\ SAll \subseteq (SUsed \cup SCarried \cup SNot \cup SDead)
+                          /\ SMustRelease \subseteq SNot
+                          /\ SNot \cap (SUsed \cup SCarried) = {}
+(* C07+C08: at quiescence nothing waits, only dead reservations (and the F-c blind spot, as coded) are still skipped, the cache is past
+   every live number; after the abandonment sweep nothing is skipped and the stable sequence is there too *)
+StormNoStall == IsStorm => /\ cur.cache1.pend = 0 /\ LSet(cur.cache1.skip) \subseteq (SDead \cup SBlindC) /\ cur.cache1.next > cur.top
+                           /\ cur.cache2.skip = <<>> /\ cur.cache2.stable >= cur.top
+StormDevFc == IsStorm => (LSet(cur.cache1.skip) \cap SBlindC) \subseteq SDead
+(* C05: the cache ends up announcing each document's final revision (nothing was given up on before it arrived) *)
+StormFeedAnnouncesFinal == IsStorm => \A d \in SDocs : d.chan = d.seq
+(* C08: the resume loop, C01: the continuous feed - every document's final revision was delivered *)
+StormNoLostChange == IsStorm => \A d \in SDocs : SHas(SRowsOs, d)
+StormContDelivers == IsStorm => \A d \in SDocs : SHas(SRowsCt, d)
+(* every row names a sequence some write of that document was committed with *)
+StormRowsAreCommitted == IsStorm => \A r \in SRowsOs \cup SRowsCt : \E a \in SCommitted : a.id = r.id /\ a.seq = r.seq
+StormOrdered == IsStorm => \A i \in 1..Len(cur.os.resps) : LET R == cur.os.resps[i] IN \A j \in 1..(Len(R) - 1) : R[j].seq < R[j + 1].seq
+StormResumeSafe == IsStorm => \A d \in SDocs : SHas(SRowsOs, d) \/ d.seq > Safe(Tk(cur.os.last))
+(* the cache's own timer gives up on a reservation that never arrives: the stable sequence gets past it *)
+AbandonNoStall == cur.a = "TimerAbandon" => (cur.timeout_error /\ cur.saw_skipped /\ cur.cleared /\ cur.stable >= cur.second /\ cur.next > cur.second)
+
+ReportFree == /\ Viol("StormLedger", StormLedger) /\ Viol("StormNoStall", StormNoStall) /\ Viol("DevFc", StormDevFc)
+              /\ Viol("StormFeedAnnouncesFinal", StormFeedAnnouncesFinal) /\ Viol("StormNoLostChange", StormNoLostChange)
+              /\ Viol("StormContDelivers", StormContDelivers) /\ Viol("StormRowsAreCommitted", StormRowsAreCommitted)
+              /\ Viol("StormOrdered", StormOrdered) /\ Viol("StormResumeSafe", StormResumeSafe) /\ Viol("AbandonNoStall", AbandonNoStall)
+ReportP == ReportPReplay /\ ReportFree
 
 Progress == Mark(l)
 Accept == PrintHWM
